@@ -33,17 +33,44 @@ RULE = ("sources: random histories (add_node/add_edge with re-insertion in permu
         "keep_nodes (plus lists with repeated sizes; as list, tuple, set, frozenset, dict keys, numpy array, range, generator, iterator), "
         "EVERY (order|size in none,1..5 / 0..4, up_to, keep_isolated_nodes) "
         "combination of get_edges(subhypergraph=True) plus size 0 / order -1, the largest component for no filter / size 0..3 / "
-        "order 0..2; every call in one of three spellings (all keywords, defaults left out, positional), collections handed in are "
+        "order 0..2; collections handed in are "
         "overwritten after the call; after all selections the source is changed in place by 1-3 calls (half of the time calls that keep "
         "the numbers of nodes and hyperedges) and 14 of the selections are asked again; copy() of 2 % of the results, 3 % of the results "
         "take a further history side by side with a hand-built object of the same content; copy() followed by random mutations of copy "
         "and original (equality = "
         "every public getter incl. incidence metadata, empty edges, matrices, components, serialisation views; same "
-        "accepted/rejected calls as a never-copied object; copy of the mutated copy); a small malformed stream (order and size together, neither "
+        "accepted/rejected calls as a never-copied object; copy of the mutated copy); "
+        "metadata VALUES (node, hyperedge, incidence, hypergraph-level, empty-edge metadata) and attribute names per source: 'plain' "
+        "(JSON-like) / 'rich' = objects of every kind copy.deepcopy accepts (nan, +-inf, -0.0, lambdas, local functions with closures, "
+        "builtins, class objects, instances of local classes with and without __eq__ / with __slots__, enum members of a local Enum, "
+        "sets, frozensets, bytes, bytearray, complex, Fraction, Decimal incl. NaN, nested containers with int / tuple / None keys, "
+        "numpy arrays and scalars incl. nan, ints beyond 2**64, bools, dates, a cyclic list, a 40-deep list, bound methods, partials, "
+        "exception objects, long strings / lists; attribute names 0, ('k', 1), None) / 'all' = also objects deepcopy refuses (generator, "
+        "lock, memoryview: extractions only, no copy()); every call receives FRESH value objects; extended sources also with weights of "
+        "every numeric kind (nan, +-inf, 0, 2**70+1, Fraction, numpy float, 1e308, 5e-324, negative) and with ONE dict object handed to "
+        "several items; get_edges with EVERY combination of (order | size | neither) x up_to x subhypergraph x keep_isolated_nodes x "
+        "metadata (not mentioned / True, some False), the returned TYPE checked first (hypergraph of the source's class / list / dict), "
+        "every call with a drawn number of leading positional arguments, the rest by keyword, defaults left out half of the time, flags "
+        "as bool / 1 / 0 / numpy bool / None; 8 calls per source are repeated as the FIRST call on a freshly built, never queried "
+        "twin, 40 % of the copy rounds copy a never queried object; "
+        "a small malformed stream (order and size together, neither "
         "orders nor sizes, a node outside the hypergraph) is compared with the model only.  A case = (source, selection); "
         "distinct by canonical content + selection; non-trivial when the selection keeps >= 1 and drops >= 1 hyperedge "
         "(copy: both mutation lists change something)")
-ASSUMPTIONS = ["hyperedges of Hypergraph are duplicate-free node tuples (C01's quantifier: add_edge links a repeated node twice, remove_edge "
+ASSUMPTIONS = ["'copy() returns an EQUAL hypergraph' is read as: every public getter of the copy gives a structurally equal answer (same "
+               "types, same values; instances by class and attributes; a NaN equals a NaN) AND each public listing (nodes / hyperedges with "
+               "metadata, weights, hypergraph / incidence metadata) of the copy compares equal to the original's with Python's == - which is "
+               "what copy.deepcopy guarantees for every value it accepts, a nan weight or a nan inside metadata included (deepcopy hands "
+               "floats over as the very object and container == looks at identity first); values whose == is elementwise (numpy arrays) or "
+               "identity (instances without __eq__) are compared by structure.  No more is demanded (e.g. not `nan == nan`)",
+               "'with their original weights and metadata' (extractions): weights equal as numbers (or both NaN), metadata structurally equal; "
+               "whether the metadata dicts of a result are the source's objects or copies is not demanded (counted only)",
+               "a hypergraph holding a value that copy.deepcopy refuses (generator, lock, memoryview) has no copy() on the unchanged tree: "
+               "such sources get every extraction but no copy round",
+               "get_edges(subhypergraph=False, keep_isolated_nodes=True) is documented to raise: nothing is demanded of it; the plain listings "
+               "(subhypergraph=False) are checked as observations of the same selection (type first, then the hyperedges of the selection, "
+               "each once, with the metadata of the per-hyperedge getter)",
+               "hyperedges of Hypergraph are duplicate-free node tuples (C01's quantifier: add_edge links a repeated node twice, remove_edge "
                "unlinks it once) and each side of a directed hyperedge is duplicate-free; the two sides of a directed hyperedge MAY overlap "
                "or be empty (add_edge accepts them, every extraction and copy() handles them; size = len(source) + len(target) as "
                "get_sizes() / get_orders() report it, a node on both sides counts twice)",
@@ -59,13 +86,133 @@ ASSUMPTIONS = ["hyperedges of Hypergraph are duplicate-free node tuples (C01's q
                "reported as a correspondence break twice per run, afterwards contents only are compared and the search for a failing input goes on"]
 TRUSTED = ["largest_component(size, order) is taken as returned by utils/cc.py (model parameter `comp`); the harness checks with its own "
            "union-find that it is a connected component of maximum size under the filter",
-           "copy.deepcopy semantics (the model's copy is the identity on values)",
+           "copy.deepcopy semantics (the model's copy is the identity on values; metadata values and attribute names reach the model as "
+           "tokens - index of the value's kind -, so WHICH objects the values are is visible to the Python oracles only)",
            "empty edges have no public getter: their names are observed by add_empty_edge on a stdlib deepcopy of the object "
            "(a duplicate name raises), their metadata through the attribute _empty_edges where it exists"]
 BUDGET_S = {"quick": 70, "thorough": 1500}
 
-MD_KEYS = ["a", "b", "c"]
-VAL_POOL = [7, "red", 2.5, [1, 2], {"z": 1}, None, "", -3]
+MD_KEYS = ["a", "b", "c", 0, ("k", 1), None]     # attribute names: the first three in every source, all six in 'rich' ones
+NK_PLAIN = 3
+
+
+def _make_values():
+    """makers of metadata VALUES (each call of a maker builds a FRESH object): the containers store whatever object they are
+    given, so a value is any Python object - not only what JSON or pickle can carry.  -> (name, maker) lists: plain
+    (JSON-like, the first eight), rich (everything copy.deepcopy accepts), nocopy (objects deepcopy refuses: they can sit in
+    a hypergraph and travel with an extraction, but such a hypergraph has no copy() on the unchanged tree)"""
+    import datetime
+    import decimal
+    import enum
+    import functools
+    import threading
+
+    class Tag:                                   # a locally defined class without __eq__ (pickle cannot find it)
+        def __init__(self, *a):
+            self.items = list(a)
+            self.note = {"n": float("nan"), "f": abs}
+
+    class Pt:                                    # a locally defined class with value equality
+        def __init__(self, x, y):
+            self.x, self.y = x, y
+
+        def __eq__(self, o):
+            return type(o) is type(self) and (o.x, o.y) == (self.x, self.y)
+
+        def __hash__(self):
+            return hash((self.x, self.y))
+
+    class Slots:
+        __slots__ = ("u", "v")
+
+        def __init__(self):
+            self.u, self.v = 1, [2, "s"]
+
+    class Colour(enum.Enum):
+        RED = 1
+
+    def closure():
+        k = 3
+
+        def decay(t):
+            return 0.5 ** t + k
+        return decay
+
+    def cyclic():
+        x = [1, {"self": None}]
+        x[1]["self"] = x
+        return x
+
+    def deep():
+        x = []
+        for i in range(40):
+            x = [x, i]
+        return x
+
+    def nested():
+        nan = float("nan")
+        return {"k": [1, {"deep": (2.5, None, [nan, nan])}], 3: "int key", (1, 2): "tuple key", None: 0, "": {}, "fn": [len, lambda: 0]}
+
+    def gen():
+        yield 1
+
+    plain = [("int", lambda: int("7")), ("str", lambda: "".join(["r", "ed"])), ("float", lambda: float("2.5")),
+             ("list", lambda: [1, 2]), ("dict", lambda: {"z": 1}), ("None", lambda: None), ("empty str", lambda: ""),
+             ("negative int", lambda: int("-3"))]
+    rich = [("nan", lambda: float("nan")), ("inf", lambda: float("inf")), ("-inf", lambda: float("-inf")),
+            ("-0.0", lambda: float("-0.0")),
+            ("lambda", lambda: (lambda x: x + 1)), ("local function with a closure", closure),
+            ("builtin function", lambda: len), ("module-level class", lambda: Fraction), ("local class", lambda: Tag),
+            ("instance of a local class", lambda: Tag(1, "two")), ("instance with __eq__", lambda: Pt(1, 2.5)),
+            ("instance with __slots__", Slots), ("enum member of a local Enum", lambda: Colour.RED),
+            ("set", lambda: {1, 2, "x"}), ("frozenset", lambda: frozenset({(1, 2), 3})), ("empty set", set),
+            ("bytes", lambda: bytes([0, 255, 65])), ("bytearray", lambda: bytearray(b"ab\x00")),
+            ("complex", lambda: complex(1, -2.5)), ("Fraction", lambda: Fraction(1, 3)),
+            ("Decimal", lambda: decimal.Decimal("1.10")), ("Decimal NaN", lambda: decimal.Decimal("NaN")),
+            ("nested", nested), ("tuple holding a list", lambda: ([1], "a", ())), ("range", lambda: range(1, 9, 2)),
+            ("numpy array", lambda: __import__("numpy").array([1.5, float("nan"), 3.0])),
+            ("numpy int array 2d", lambda: __import__("numpy").arange(6).reshape(2, 3)),
+            ("numpy float64", lambda: __import__("numpy").float64(6.25)), ("numpy nan", lambda: __import__("numpy").float64("nan")),
+            ("int beyond 2**64", lambda: 2 ** 70 + 1), ("True", lambda: True), ("False", lambda: False),
+            ("float equal to an int of the pool", lambda: float("7")), ("0", lambda: 0), ("empty dict", dict), ("empty list", list),
+            ("date", lambda: datetime.date(2020, 1, 2)), ("cyclic list", cyclic), ("deeply nested list", deep),
+            ("bound method", lambda: "".join(["ab", "c"]).upper), ("partial", lambda: functools.partial(int, base=2)),
+            ("exception object", lambda: ValueError("bad", 3)), ("long str", lambda: "x" * 5000 + "y"),
+            ("long list", lambda: list(range(700))), ("str that looks like JSON", lambda: '{"a": [1, null]}'),
+            ("Ellipsis", lambda: ...), ("type object", lambda: int), ("list of nans", lambda: [float("nan"), float("nan")])]
+    nocopy = [("generator object", gen), ("lock", threading.Lock), ("memoryview", lambda: memoryview(b"mv")),
+              ("instance holding a lock", lambda: Tag(threading.Lock()))]
+    return plain, rich, nocopy
+
+
+_PLAIN, _RICH, _NOCOPY = _make_values()
+VALS = _PLAIN + _RICH + _NOCOPY
+NV_PLAIN, NV_COPYABLE, NV_ALL = len(_PLAIN), len(_PLAIN) + len(_RICH), len(VALS)
+# the generator's current regime (set per source, see `regime`): how many values / attribute names gen_md draws from
+GEN = {"nv": NV_PLAIN, "nk": NK_PLAIN}
+
+
+def val(i):
+    """a FRESH object of value kind i"""
+    return VALS[i][1]()
+
+
+def regime(case):
+    GEN["nv"] = case.get("nv", NV_PLAIN)
+    GEN["nk"] = NK_PLAIN if GEN["nv"] <= NV_PLAIN else len(MD_KEYS)
+
+
+def rv(rng):
+    """index of a value: in rich sources half of the draws are rich values"""
+    if GEN["nv"] > NV_COPYABLE and rng.random() < 0.35:
+        return rng.randrange(NV_COPYABLE, GEN["nv"])
+    if GEN["nv"] > NV_PLAIN and rng.random() < 0.5:
+        return rng.randrange(NV_PLAIN, min(GEN["nv"], NV_COPYABLE))
+    return rng.randrange(NV_PLAIN)
+
+
+def rkey(rng):
+    return rng.randrange(GEN["nk"])
 EMPTY_NAMES = ["e0", 0, ("x", 1)]          # names of empty edges (Hypergraph.add_empty_edge)
 H_WEIGHTED, H_TYPE = 100, 101              # attribute tokens of the constructor's hypergraph metadata (Model/C05.lean)
 TYPE_TOK = {"Hypergraph": 0, "DirectedHypergraph": 1}
@@ -107,7 +254,7 @@ def guard(fn, *a, **k):
 def gen_md(rng, p_none=0.4):
     if rng.random() < p_none:
         return None
-    return [[a, rng.randrange(len(VAL_POOL))] for a in sorted(rng.sample(range(3), rng.randint(0, 2)))]
+    return [[a, rv(rng)] for a in sorted(rng.sample(range(GEN["nk"]), rng.randint(0, 2)))]
 
 
 STR_POOL = ["n" + chr(97 + i) for i in range(12)] + ["A", "B1", "zz", "", "a", "node 7", "\u00fc", "10", "9", "Zz top"]
@@ -241,15 +388,15 @@ def gen_aux_op(rng, kind, n, keys, incs, ov=0.0, top=5):
         raw, node = rng.choice(incs)
         if rng.random() < 0.15:
             raw = perm_raw(rng, kind, canon_raw(kind, raw))     # another spelling of the same hyperedge
-        return ["attri", raw, node, rng.randrange(3), rng.randrange(len(VAL_POOL))]
+        return ["attri", raw, node, rkey(rng), rv(rng)]
     if r < 0.82 and kind == "u":
         return ["addempty", rng.randrange(len(EMPTY_NAMES)), gen_md(rng, 0.4) or []]
     if r < 0.90:
         return ["sethm", gen_md(rng, 0) or []]
-    return ["attrh", rng.randrange(3), rng.randrange(len(VAL_POOL))]
+    return ["attrh", rkey(rng), rv(rng)]
 
 
-def gen_ops(rng, kind, weighted, n, present, length, extended=False, p_aux=0.16, incs=None, ov=0.0, top=5):
+def gen_ops(rng, kind, weighted, n, present, length, extended=False, p_aux=0.16, incs=None, ov=0.0, top=5, p_share=0.2):
     """random mutations; `present` = set of canonical keys currently in the object (kept up to date as if all
     valid ops are accepted - used only to bias the generator)"""
     ops = []
@@ -288,9 +435,14 @@ def gen_ops(rng, kind, weighted, n, present, length, extended=False, p_aux=0.16,
             ops.append(["setem", perm_raw(rng, kind, rng.choice(keys)), gen_md(rng, 0) or []])
         elif r < 0.94 or kind == "d":
             # (DirectedHypergraph.set_attr_to_edge_metadata is outside this property: C02 / D10)
-            ops.append(["attrn", rng.randrange(n), rng.randrange(3), rng.randrange(len(VAL_POOL))])
+            ops.append(["attrn", rng.randrange(n), rkey(rng), rv(rng)])
         else:
-            ops.append(["attre", perm_raw(rng, kind, rng.choice(keys)), rng.randrange(3), rng.randrange(len(VAL_POOL))])
+            ops.append(["attre", perm_raw(rng, kind, rng.choice(keys)), rkey(rng), rv(rng)])
+        if extended and rng.random() < p_share:
+            # ONE dict object handed to several items (the containers keep metadata by reference: an attribute set on one of
+            # them afterwards shows on the others - in a never-copied object, in a copy and in an extracted hypergraph alike)
+            ops.append(["sharemd", rng.sample(range(n), min(n, 2)), rng.choice(keys) if keys and rng.random() < 0.5 else None,
+                        gen_md(rng, 0) or []])
         if extended and rng.random() < 0.15:
             x = rng.random()
             if x < 0.5:
@@ -302,12 +454,23 @@ def gen_ops(rng, kind, weighted, n, present, length, extended=False, p_aux=0.16,
     return ops
 
 
-def gen_source(rng, n=None, length=None, labels=None, top=5, kind=None):
+def draw_regime(rng):
+    """the kinds of metadata values (and attribute names) of a source: plain (JSON-like) / rich (every kind of object
+    copy.deepcopy accepts) / all (also objects deepcopy refuses: no copy() is asked of such a source)"""
+    nv = rng.choice([NV_PLAIN] * 6 + [NV_COPYABLE] * 12 + [NV_ALL] * 2)
+    regime({"nv": nv})
+    return nv
+
+
+def gen_source(rng, n=None, length=None, labels=None, top=5, kind=None, weighted=None, nv=None):
     kind = kind or ("u" if rng.random() < 0.58 else "d")
     n = n or rng.choice([3, 4, 5, 5, 6, 6])
-    weighted = rng.random() < 0.6
+    weighted = rng.random() < 0.6 if weighted is None else weighted
     # half of the directed sources (a fifth of the undirected ones) also hold the unusual shapes, see gen_raw
     ov = rng.choice([0.25, 0.5]) if rng.random() < (0.5 if kind == "d" else 0.2) else 0.0
+    if nv is None:
+        nv = draw_regime(rng)
+    regime({"nv": nv})
     hist = []
     for r in rng.sample(range(n), rng.randint(1, n)):
         if rng.random() < 0.7:
@@ -316,11 +479,12 @@ def gen_source(rng, n=None, length=None, labels=None, top=5, kind=None):
     hist += gen_ops(rng, kind, weighted, n, set(), length or rng.randint(3, 14), p_aux=rng.choice([0.0, 0.15, 0.3]),
                     incs=incs, ov=ov, top=top)
     rng.shuffle(hist)
-    case = {"kind": kind, "weighted": weighted, "labels": (labels or gen_labels)(rng, n), "history": hist, "incs": incs, "ov": ov}
+    case = {"kind": kind, "weighted": weighted, "labels": (labels or gen_labels)(rng, n), "history": hist, "incs": incs, "ov": ov,
+            "nv": nv}
     if weighted and rng.random() < 0.12:
         case["wscale"] = True
     x = rng.random()
-    if hist and x < 0.25:
+    if hist and x < 0.25 and nv <= NV_COPYABLE:
         case["copy_at"] = rng.randrange(len(hist))
         case["junk"] = gen_ops(rng, kind, weighted, n, set(canon_raw(kind, o[1]) for o in hist if o[0] == "addedge"),
                                rng.randint(2, 6), extended=True, p_aux=0.3, incs=list(incs), ov=ov)
@@ -342,14 +506,48 @@ def gen_silent_ops(rng, case, S, length):
         if keys and r < 0.35:
             ops.append(["setw", perm_raw(rng, kind, rng.choice(keys)), rng.randint(1, 12) if S[0] else 4])
         elif keys and r < 0.6:
-            ops.append(["setem", perm_raw(rng, kind, rng.choice(keys)), gen_md(rng, 0) or [[0, rng.randrange(len(VAL_POOL))]]])
+            ops.append(["setem", perm_raw(rng, kind, rng.choice(keys)), gen_md(rng, 0) or [[0, rv(rng)]]])
         elif r < 0.8:
-            ops.append(["setnm", rng.randrange(n), gen_md(rng, 0) or [[1, rng.randrange(len(VAL_POOL))]]])
+            ops.append(["setnm", rng.randrange(n), gen_md(rng, 0) or [[1, rv(rng)]]])
         elif keys and r < 0.9 and S[0]:
             ops.append(["addedge", perm_raw(rng, kind, rng.choice(keys)), rng.randint(1, 12), gen_md(rng)])   # re-insertion: weights add up
         else:
-            ops.append(["attrn", rng.randrange(n), rng.randrange(3), rng.randrange(len(VAL_POOL))])
+            ops.append(["attrn", rng.randrange(n), rkey(rng), rv(rng)])
     return ops
+
+
+def gen_source_flavoured(rng, flavour, kind, weighted):
+    """small sources (3-4 nodes) that are sure to hold one class of content every run: 'xw' weights of every numeric kind (nan,
+    inf, 0, ...), 'nocopy' metadata values copy.deepcopy refuses, 'share' one dict object handed to several items"""
+    n = rng.choice([3, 4, 4])
+    if flavour == "xw":
+        case = gen_source(rng, n=n, kind=kind, weighted=True, nv=rng.choice([NV_PLAIN, NV_COPYABLE]))
+        case.pop("wscale", None)
+        case["xw"] = True
+        # the boundary weights for sure: 0 (falsy), nan, inf on hyperedges of their own
+        hist = list(case["history"])
+        used = set(canon_raw(kind, o[1]) for o in hist if o[0] in ("addedge", "rmedge"))
+        for q in rng.sample([3, 1, 2, 10, 9, 4], 3):
+            for _ in range(20):
+                raw = gen_raw(rng, kind, n, case.get("ov", 0.0))
+                if canon_raw(kind, raw) not in used:
+                    used.add(canon_raw(kind, raw))
+                    hist.append(["addedge", raw, q, gen_md(rng)])
+                    break
+        case["history"] = hist
+    elif flavour == "nocopy":
+        case = gen_source(rng, n=n, kind=kind, weighted=weighted, nv=NV_ALL)
+    else:
+        case = gen_source(rng, n=n, kind=kind, weighted=weighted, nv=rng.choice([NV_PLAIN, NV_COPYABLE]))
+        hist = list(case["history"])
+        keys = set(canon_raw(kind, o[1]) for o in hist if o[0] == "addedge")
+        for op in gen_ops(rng, kind, case["weighted"], n, keys, rng.randint(3, 6), extended=True, incs=case["incs"],
+                          ov=case.get("ov", 0.0), p_share=0.6):
+            if op[0] != "clear":
+                hist.append(op)
+        case = {**case, "history": hist, "extended": True}
+    case["flavour"] = flavour
+    return case
 
 
 def gen_source_extended(rng):
@@ -364,7 +562,12 @@ def gen_source_extended(rng):
         if op[0] == "clear" and rng.random() < 0.6:
             continue
         hist.insert(rng.randint(len(hist) // 2, len(hist)), op)
-    return {**case, "history": hist, "extended": True}
+    case = {**case, "history": hist, "extended": True}
+    if case["weighted"] and rng.random() < 0.6:
+        # weights of every numeric kind (nan, inf, 0, huge ints, Fractions, numpy floats, ...), see XW
+        case.pop("wscale", None)
+        case["xw"] = True
+    return case
 
 
 # component layouts: sizes of the connected components (w.r.t. the filter of the mode)
@@ -383,6 +586,8 @@ def gen_layout_source(rng, sizes, perm, mode):
     """a Hypergraph whose connected components under `mode` have exactly the sizes `sizes`; `perm` is the order in which
     the components first appear in the node listing (= the order the component search meets them)"""
     n = sum(sizes)
+    nv = min(draw_regime(rng), NV_COPYABLE)
+    regime({"nv": nv})
     ranks = list(range(n))
     rng.shuffle(ranks)
     comps, at = [], 0
@@ -451,14 +656,14 @@ def gen_layout_source(rng, sizes, perm, mode):
     for _ in range(rng.randint(0, 2)):
         tail.insert(rng.randint(0, len(tail)), gen_aux_op(rng, "u", n, [canon_raw("u", o[1]) for o in tail if o[0] == "addedge"], []))
     return {"kind": "u", "weighted": weighted, "labels": gen_labels(rng, n), "history": first + tail,
-            "layout": {"sizes": list(sizes), "perm": list(perm), "mode": mode}}
+            "layout": {"sizes": list(sizes), "perm": list(perm), "mode": mode}, "nv": nv}
 
 
 # ------------------------------------------------------------------------------------------
 # realisation on the implementation / rendering for the model
 
 def py_md(md):
-    return None if md is None else {MD_KEYS[a]: _copy.deepcopy(VAL_POOL[v]) for a, v in md}
+    return None if md is None else {MD_KEYS[a]: val(v) for a, v in md}
 
 
 WSCALE = 2 ** 60 + 1
@@ -477,7 +682,16 @@ def py_w(q, case=None):
         return None
     if case is not None and case.get("wscale"):
         return q * WSCALE
+    if case is not None and case.get("xw"):
+        return XW[(q - 1) % len(XW)]()
     return q // 4 if q % 8 == 0 else q / 4
+
+
+# case["xw"]: weights of every numeric kind a weighted hypergraph accepts (fresh objects; such sources are not sent to the
+# model: its weights are integer quanta).  Sums of re-insertions stay defined in Python (no Decimal: Decimal + float raises)
+XW = [lambda: float("nan"), lambda: float("inf"), lambda: 0, lambda: float("-inf"), lambda: 2 ** 70 + 1,
+      lambda: Fraction(1, 3), lambda: __import__("numpy").float64(2.5), lambda: 1e308,
+      lambda: float("nan"), lambda: 0, lambda: -2.5, lambda: 5e-324]
 
 
 def op_bits(op):
@@ -526,22 +740,30 @@ def apply_py(case, h, op):
     if t == "setem":
         return guard(h.set_edge_metadata, py_key(case, op[1], b), py_md(op[2]))
     if t == "attrn":
-        return guard(h.set_attr_to_node_metadata, lab(case, op[1]), MD_KEYS[op[2]], _copy.deepcopy(VAL_POOL[op[3]]))
+        return guard(h.set_attr_to_node_metadata, lab(case, op[1]), MD_KEYS[op[2]], val(op[3]))
     if t == "attre":
-        return guard(h.set_attr_to_edge_metadata, py_key(case, op[1], b), MD_KEYS[op[2]], _copy.deepcopy(VAL_POOL[op[3]]))
+        return guard(h.set_attr_to_edge_metadata, py_key(case, op[1], b), MD_KEYS[op[2]], val(op[3]))
     if t == "setim":
         # (tuples only: the undirected class stores the incidence entry under the edge object as given)
         return guard(h.set_incidence_metadata, py_key(case, op[1]), lab(case, op[2]), py_md(op[3]))
     if t == "attri":
         def edit():
-            h.get_incidence_metadata(py_key(case, op[1]), lab(case, op[2]))[MD_KEYS[op[3]]] = _copy.deepcopy(VAL_POOL[op[4]])
+            h.get_incidence_metadata(py_key(case, op[1]), lab(case, op[2]))[MD_KEYS[op[3]]] = val(op[4])
         return guard(edit)
     if t == "addempty":
         return guard(h.add_empty_edge, EMPTY_NAMES[op[1]], py_md(op[2]))
     if t == "sethm":
         return guard(h.set_hypergraph_metadata, py_md(op[1]))
     if t == "attrh":
-        return guard(h.set_attr_to_hypergraph_metadata, MD_KEYS[op[1]], _copy.deepcopy(VAL_POOL[op[2]]))
+        return guard(h.set_attr_to_hypergraph_metadata, MD_KEYS[op[1]], val(op[2]))
+    if t == "sharemd":
+        def share():
+            d = py_md(op[3])
+            for r in op[1]:
+                h.set_node_metadata(lab(case, r), d)
+            if op[2] is not None:
+                h.set_edge_metadata(py_key(case, op[2], b), d)
+        return guard(share)
     if t == "rmnode":
         if case["kind"] == "d" and on_both_sides(h, case["labels"][op[1]]):
             # DirectedHypergraph.remove_node raises half-way for such a node on the unchanged tree (outside C02's
@@ -612,7 +834,11 @@ def empty_edge_names(h):
     already there raises).  None when the class has no empty edges (DirectedHypergraph)"""
     if not hasattr(h, "add_empty_edge"):
         return None
-    probe = _copy.deepcopy(h)
+    try:
+        probe = _copy.deepcopy(h)
+    except Exception:  # noqa: BLE001       (metadata that deepcopy refuses, e.g. a generator object: no probe possible)
+        priv = getattr(h, "_empty_edges", None)
+        return list(priv) if isinstance(priv, dict) else []
     out = []
     for name in EMPTY_NAMES:
         try:
@@ -628,7 +854,7 @@ def aux_of(h):
     if not isinstance(inc, dict):
         raise AssertionError("get_all_incidences_metadata() is not a dict")
     for (e, n), md in inc.items():
-        if h.check_edge(e) and h.get_incidence_metadata(e, n) != md:
+        if h.check_edge(e) and not same(h.get_incidence_metadata(e, n), md):
             raise AssertionError(f"get_incidence_metadata({e!r}, {n!r}) disagrees with get_all_incidences_metadata()")
     names = empty_edge_names(h)
     empty = []
@@ -660,10 +886,10 @@ def snap(h):
         if len(set(keys)) != len(keys) or set(keys) != set(em) or set(keys) != set(ws):
             raise AssertionError("get_edges(), get_edges(metadata=True) and get_weights(asdict=True) list different hyperedges")
         for k in keys:
-            if h.get_weight(k) != ws[k] or h.get_edge_metadata(k) != em[k] or not h.check_edge(k):
+            if not weq(h.get_weight(k), ws[k]) or not same(h.get_edge_metadata(k), em[k]) or not h.check_edge(k):
                 raise AssertionError(f"per-hyperedge queries disagree with the listings for {k!r}")
         for n in lst:
-            if h.get_node_metadata(n) != nodes[n]:
+            if not same(h.get_node_metadata(n), nodes[n]):
                 raise AssertionError(f"get_node_metadata({n!r}) disagrees with get_nodes(metadata=True)")
         return (bool(h.is_weighted()), dict(nodes), {k: (ws[k], em[k]) for k in keys}, aux_of(h))
     st, v = guard(f)
@@ -695,31 +921,175 @@ def incidence_ok(kind, h, s):
     return v if st == "ok" else "incidence queries raised " + v
 
 
-def canon(x):
-    if isinstance(x, dict):
-        return ("{", tuple(sorted(((canon(k), canon(v)) for k, v in x.items()), key=repr)))
-    if isinstance(x, (set, frozenset)):
-        return ("s", tuple(sorted((canon(v) for v in x), key=repr)))
-    if isinstance(x, (list, tuple)):
-        return ("l", tuple(canon(v) for v in x))
-    if isinstance(x, float) and x.is_integer():
-        return ("f", int(x))
+_ATOMS = (int, str, type(None))
+
+
+def canon(x, strict=False, _path=None):
+    """a comparable picture of an answer of the public API (dicts and sets sorted, tuples / lists / bools / floats told
+    apart).  Loose (default): STRUCTURE only - a NaN equals a NaN, a function equals a function made from the same code with
+    an equal closure, an instance equals an instance of the same class with equal attributes, so two objects built by the same
+    recipe have the same picture (no addresses in it).  strict=True keeps every atom whose `==` is not reflexive (float nan,
+    Decimal('NaN'), complex / numpy nan) and every function / class / enum member as the OBJECT itself: comparing two
+    strict pictures inside a tuple is then Python's own container equality (identical, or ==) - what `a == b` says for two
+    listings, which is what copy.deepcopy guarantees for them (it hands such objects over as they are)."""
+    t = type(x)
+    if t in _ATOMS:
+        return x
+    if t is bool:
+        return ("b", x)
+    if t is float:
+        if x != x:
+            return x if strict else ("nan",)
+        if x.is_integer():
+            return ("f", int(x)) if x or str(x)[0] != "-" else ("f", "-0")
+        return x
+    if t is tuple:
+        return ("t", tuple(canon(v, strict, _path) for v in x))
+    if t is list or t is dict:
+        if _path is None:
+            _path = set()
+        i = id(x)
+        if i in _path:
+            return ("cycle",)
+        _path.add(i)
+        try:
+            if t is list:
+                return ("l", tuple(canon(v, strict, _path) for v in x))
+            items = []
+            for k, v in x.items():
+                tk = type(k)
+                if tk is str or tk is int:
+                    items.append((("'" if tk is str else "#") + str(k), k, canon(v, strict, _path)))
+                else:
+                    ck = canon(k)
+                    items.append((_sort_key(ck), canon(k, True, _path) if strict else ck, canon(v, strict, _path)))
+            items.sort(key=_first)
+            return ("{", tuple((k, v) for _, k, v in items))
+        finally:
+            _path.discard(i)
+    if t is set or t is frozenset:
+        items = []
+        for v in x:
+            tv = type(v)
+            if tv is str or tv is int:
+                items.append((("'" if tv is str else "#") + str(v), v))
+            else:
+                cv = canon(v)
+                items.append((_sort_key(cv), canon(v, True, _path) if strict else cv))
+        items.sort(key=_first)
+        return ("s", tuple(v for _, v in items))
+    return _canon_rare(x, strict, _path)
+
+
+def _first(it):
+    return it[0]
+
+
+def _sort_key(c):
+    """of a LOOSE picture (no addresses in it)"""
+    t = type(c)
+    return "'" + c if t is str else "#" + str(c) if t is int else repr(c)
+
+
+def _slots(x):
+    out = {}
+    for c in type(x).__mro__:
+        for n in ([c.__slots__] if isinstance(getattr(c, "__slots__", ()), str) else getattr(c, "__slots__", ())):
+            if n not in ("__dict__", "__weakref__") and hasattr(x, n):
+                out[n] = getattr(x, n)
+    return out
+
+
+def _canon_rare(x, strict, path):
+    import enum
+    import functools
+    import types
+    t = type(x)
+    qn = getattr(t, "__qualname__", str(t))
     try:
         import numpy as np
         if isinstance(x, np.ndarray):
-            return ("l", tuple(canon(v) for v in x.tolist()))
+            if x.dtype == object:
+                return ("nd", "O", x.shape, canon(x.tolist(), strict, path))
+            return ("nd", x.dtype.str, x.shape, x.tobytes())
         if isinstance(x, np.generic):
-            return canon(x.item())
-    except Exception:  # noqa: BLE001
+            v = x.item()
+            if isinstance(v, (int, float, complex, str, bool, bytes)) and v == v:
+                return canon(v, strict, path)
+            return x if strict else ("nan", x.dtype.str)
+    except ImportError:
         pass
-    return x if isinstance(x, (int, str, bool, type(None), float)) else repr(x)
+    if isinstance(x, (list, dict, tuple, set, frozenset)):               # subclasses (OrderedDict, namedtuple, ...)
+        base = next(b for b in (list, dict, tuple, set, frozenset) if isinstance(x, b))
+        return ("sub", qn, canon(base(x), strict, path))
+    if isinstance(x, enum.Enum):
+        return x if strict else ("enum", qn, x.name)
+    if isinstance(x, (types.FunctionType, types.BuiltinFunctionType, types.MethodType, type, types.ModuleType,
+                      types.MethodDescriptorType, types.WrapperDescriptorType)):
+        self_ = getattr(x, "__self__", None)
+        if self_ is not None and not isinstance(self_, types.ModuleType):    # a bound method: new object per copy
+            return ("meth", getattr(x, "__name__", "?"), canon(self_, strict, path))
+        if strict:
+            return x
+        if isinstance(x, types.FunctionType):
+            cells = [c.cell_contents for c in (x.__closure__ or ()) if c.cell_contents is not x]
+            return ("fn", x.__qualname__, x.__code__.co_firstlineno, canon(x.__defaults__, False, path), canon(cells, False, path))
+        return ("ref", getattr(x, "__module__", None), getattr(x, "__qualname__", getattr(x, "__name__", repr(x))))
+    if isinstance(x, (bytes, bytearray)):
+        return ("by" if t is bytes else "ba", bytes(x))
+    if isinstance(x, functools.partial):
+        return ("partial", canon(x.func, strict, path), canon(x.args, strict, path), canon(x.keywords, strict, path))
+    if isinstance(x, BaseException):
+        return ("exc-obj", qn, canon(x.args, strict, path), canon(getattr(x, "__dict__", {}), strict, path))
+    if isinstance(x, (int, float, complex, str, Fraction, range, memoryview)) or t.__module__ in ("decimal", "datetime"):
+        try:
+            reflexive = bool(x == x)
+        except Exception:  # noqa: BLE001
+            reflexive = True
+        if not reflexive:
+            return x if strict else ("nan", qn, repr(x))
+        return ("a", qn, repr(x) if not isinstance(x, memoryview) else bytes(x))
+    if x is Ellipsis or x is NotImplemented:
+        return ("a", qn, repr(x))
+    d = getattr(x, "__dict__", None)
+    if isinstance(d, dict) or hasattr(t, "__slots__"):
+        if path is None:
+            path = set()
+        if id(x) in path:
+            return ("cycle",)
+        path.add(id(x))
+        try:
+            return ("obj", qn, canon(dict(d) if isinstance(d, dict) else {}, strict, path), canon(_slots(x), strict, path))
+        finally:
+            path.discard(id(x))
+    return ("opaque", qn)                    # generators, locks, ...: compared by kind only
 
 
-def full_digest(kind, h, deep=0):
+def weq(a, b):
+    """the same weight: equal as numbers (an unweighted hypergraph shows 1 for a weight set as 1.0), or both not-a-number"""
+    try:
+        return a is b or bool(a == b) or (bool(a != a) and bool(b != b))
+    except Exception:  # noqa: BLE001
+        return False
+
+
+def edges_same(a, b):
+    """{hyperedge: (weight, metadata)}: same hyperedges, same weights (as numbers), same metadata (by structure)"""
+    return set(a) == set(b) and all(weq(a[k][0], b[k][0]) and same(a[k][1], b[k][1]) for k in a)
+
+
+def same(a, b, strict=False):
+    """equality of two answers (see canon)"""
+    return (canon(a, strict),) == (canon(b, strict),)
+
+
+def full_digest(kind, h, deep=0, fast=False, light=False):
     """every public query of the object (listing order kept, sets sorted); exceptions are observations.
     deep=1 adds components, serialisation views, filtered per-node queries, the empty-edge probe; deep=2 also the
-    matrices and the label mapping.  One alarm for the whole digest (a hang is an observation)."""
-    st, v = guard(_full_digest, kind, h, deep)
+    matrices and the label mapping.  One alarm for the whole digest (a hang is an observation).
+    fast=True: every answer is kept as its repr() instead of its canonical picture - good for comparing ONE object with
+    itself at two moments (the same objects sit in it, in the same order), not for comparing two objects"""
+    st, v = guard(_full_digest, kind, h, deep, fast, light)
     return v if st == "ok" else {"digest": ("exc", v)}
 
 
@@ -730,13 +1100,37 @@ def _try(fn, *a, **k):
         return ("exc", type(e).__name__ + ": " + str(e)[:80])
 
 
-def _full_digest(kind, h, deep):
+def _full_digest(kind, h, deep, fast=False, light=False):
     d = {}
     guard = _try                        # no nested alarms inside the digest
+    picture = repr if fast else canon
+    if light:
+        # the stored tables only (every listing, the adjacency, the id table): a subset of the keys of the full digest
+        def ql(name, fn, *a, **k):
+            try:
+                d[name] = picture(fn(*a, **k))
+            except Exception as e:  # noqa: BLE001
+                d[name] = ("exc", type(e).__name__)
+        ql("nodes_md", h.get_nodes, metadata=True)
+        ql("edges_md", h.get_edges, metadata=True)
+        ql("weights", h.get_weights, asdict=True)
+        ql("weights_l", h.get_weights)
+        ql("weighted", h.is_weighted)
+        ql("str", str, h)
+        ql("hmeta", h.get_hypergraph_metadata)
+        ql("all_imeta", h.get_all_incidences_metadata)
+        ql("edge_list", h.get_edge_list)
+        ql("empty_private", lambda: getattr(h, "_empty_edges", "n/a"))
+        if kind == "u":
+            ql("adj", h.get_adj_dict)
+        else:
+            ql("adj_s", h.get_adj_dict, "source")
+            ql("adj_t", h.get_adj_dict, "target")
+        return d
 
     def q(name, fn, *a, **k):
         try:
-            d[name] = canon(fn(*a, **k))
+            d[name] = picture(fn(*a, **k))
         except Exception as e:  # noqa: BLE001
             d[name] = ("exc", type(e).__name__)
 
@@ -850,13 +1244,26 @@ def digest_diff(a, b):
 # ------------------------------------------------------------------------------------------
 # tokens for the comparison with the model
 
+VAL_TOK = {repr(canon(mk())): i for i, (_, mk) in enumerate(VALS)}
+KEY_TOK = {repr(canon(k)): i for i, k in enumerate(MD_KEYS)}
+assert len(VAL_TOK) == len(VALS) and len(KEY_TOK) == len(MD_KEYS)
+
+
+def tok_val(v):
+    """value -> index of its kind (by structure: a fresh object of the same recipe has the same token)"""
+    r = repr(canon(v))
+    return VAL_TOK.get(r, r[:200])
+
+
+def tok_key(k):
+    r = repr(canon(k))
+    return KEY_TOK.get(r, r[:200])
+
+
 def tok_md(md):
     if not isinstance(md, dict):
-        return ("not-a-dict", repr(md))
-    out = []
-    for k, v in md.items():
-        out.append((MD_KEYS.index(k) if k in MD_KEYS else repr(k), VAL_POOL.index(v) if v in VAL_POOL else repr(v)))
-    return tuple(sorted(out, key=repr))
+        return ("not-a-dict", repr(md)[:200])
+    return tuple(sorted(((tok_key(k), tok_val(v)) for k, v in md.items()), key=repr))
 
 
 def tok_hmeta(md):
@@ -867,7 +1274,7 @@ def tok_hmeta(md):
         elif k == "type" and v in TYPE_TOK:
             out.append((H_TYPE, TYPE_TOK[v]))
         else:
-            out.append((MD_KEYS.index(k) if k in MD_KEYS else repr(k), VAL_POOL.index(v) if v in VAL_POOL else repr(v)))
+            out.append((tok_key(k), tok_val(v)))
     return tuple(sorted(out, key=repr))
 
 
@@ -975,22 +1382,36 @@ def all_selections(rng, case, n_nodes_present, tier_full=True):
             sels.append({"f": "byorders", "orders": [s - 1 for s in lst], "keep": rng.random() < 0.5})
         for flt in ({}, {"size": 2}, {"size": 3}, {"order": 1}, {"order": 2}, {"order": 0}, {"size": 1}, {"size": 0}):
             sels.append({"f": "lcc", **flt})
+        sels.append({"f": "lcc", "size": 2, "order": 1, "malformed": True})
         # malformed (model comparison only)
         sels.append({"f": "bysizes", "sizes": None, "keep": True, "malformed": True})
         sels.append({"f": "byorders", "orders": [1], "sizes": [2], "keep": True, "malformed": True})
         if len(present) < len(case["labels"]):
             out = [r for r in range(len(case["labels"])) if r not in present]
             sels.append({"f": "induced", "nodes": list(present[:1]) + out[:1], "malformed": True})
+    # get_edges: EVERY combination of (order | size | neither) x up_to x subhypergraph x keep_isolated_nodes x metadata.
+    # sub (default True) = the subhypergraph flag, md = the metadata flag (None: not mentioned by the caller).  With
+    # subhypergraph=False the call is the plain listing (a list, or {hyperedge: metadata}); keep_isolated_nodes=True is
+    # then documented to raise
+    filters = [{}] + [x for s in (1, 2, 3, 4, 5) for x in ({"size": s}, {"order": s - 1})]
     for up_to in (False, True):
-        for keep in (False, True):
-            sels.append({"f": "edges", "up_to": up_to, "keep": keep})
-            for s in (1, 2, 3, 4, 5):
-                sels.append({"f": "edges", "size": s, "up_to": up_to, "keep": keep})
-                sels.append({"f": "edges", "order": s - 1, "up_to": up_to, "keep": keep})
+        for flt in filters:
+            for keep in (False, True):
+                base = {"f": "edges", **flt, "up_to": up_to, "keep": keep}
+                sels.append(dict(base))
+                sels.append({**base, "md": True})
+                if rng.random() < 0.25:
+                    sels.append({**base, "md": False})
+            for md in ((None, True) if tier_full or rng.random() < 0.5 else (rng.choice((None, True, False)),)):
+                sels.append({"f": "edges", **flt, "up_to": up_to, "keep": False, "sub": False, "md": md})
     for up_to in (False, True):          # the falsy size / the order below every hyperedge
-        sels.append({"f": "edges", "size": 0, "up_to": up_to, "keep": rng.random() < 0.5})
-        sels.append({"f": "edges", "order": -1, "up_to": up_to, "keep": rng.random() < 0.5})
+        for flt in ({"size": 0}, {"order": -1}):
+            sels.append({"f": "edges", **flt, "up_to": up_to, "keep": rng.random() < 0.5, "md": rng.choice((None, True, False))})
+            sels.append({"f": "edges", **flt, "up_to": up_to, "keep": False, "sub": False, "md": rng.choice((None, True))})
     sels.append({"f": "edges", "size": 2, "order": 1, "up_to": False, "keep": True, "malformed": True})
+    for md in (None, True):              # documented rejection: isolated nodes can only be kept in a sub-hypergraph
+        sels.append({"f": "edges", **rng.choice(filters), "up_to": rng.random() < 0.5, "keep": True, "sub": False, "md": md,
+                     "malformed": True})
     return with_style(rng, sels)
 
 
@@ -1031,9 +1452,23 @@ def sample_selections(rng, case, present, S, k=14):
             sel["size"] = x
         else:
             sel["order"] = x - 1
+        flags_at_random(rng, sel)
         sels.append(sel)
     sels.append({"f": "edges", "up_to": False, "keep": False})
+    sels.append({"f": "edges", "up_to": False, "keep": True, "md": True})
     return with_style(rng, sels)
+
+
+def flags_at_random(rng, sel):
+    """the two remaining flags of get_edges for a drawn (order | size, up_to, keep) selection"""
+    x = rng.random()
+    if x < 0.35:
+        sel["md"] = True
+    elif x < 0.45:
+        sel["md"] = False
+    if rng.random() < 0.2:
+        sel["sub"], sel["keep"] = False, False
+    return sel
 
 
 def layout_selections(rng, case, present, S):
@@ -1051,7 +1486,7 @@ def layout_selections(rng, case, present, S):
                 sels.append(sel)
     for s_ in (1, 2, 3):
         sels.append({"f": "bysizes", "sizes": [s_], "keep": rng.random() < 0.5})
-        sels.append({"f": "edges", "size": s_, "up_to": rng.random() < 0.5, "keep": rng.random() < 0.5})
+        sels.append(flags_at_random(rng, {"f": "edges", "size": s_, "up_to": rng.random() < 0.5, "keep": rng.random() < 0.5}))
     return with_style(rng, sels)
 
 
@@ -1154,19 +1589,45 @@ def num_arg(v, pr):
 
 
 def flag_arg(b, pr):
-    return (1 if b else 0) if pr.random() < 0.05 else bool(b)
+    """a flag as the caller may hold it: a bool; now and then 1 / 0, a numpy bool (the result of a comparison), None for False"""
+    x = pr.random()
+    if x < 0.04:
+        return 1 if b else 0
+    if x < 0.07:
+        import numpy as np
+        return np.bool_(bool(b))
+    if x < 0.09 and not b:
+        return None
+    return bool(b)
+
+
+def spell(pr, fn, names, vals, defaults, k=None, full=False):
+    """call fn with the arguments `vals`: the first k positionally, the others by keyword; a keyword argument that has
+    its default value is left out half of the time (never when `full`)"""
+    if k is None:
+        k = pr.choice([0, 0, 0] + list(range(len(names) + 1)) + [len(names)])
+    kw = {}
+    for name, v, d in zip(names[k:], vals[k:], defaults[k:]):
+        is_default = (v is d) or (type(v) is type(d) and v == d)
+        if full or not is_default or pr.random() < 0.5:
+            kw[name] = v
+    return guard(fn, *vals[:k], **kw)
+
+
+GET_EDGES_ARGS = ["order", "size", "up_to", "subhypergraph", "keep_isolated_nodes", "metadata"]
+GET_EDGES_DEFAULTS = [None, None, False, False, False, False]
 
 
 def call_selection(case, h, sel):
-    """one extraction call.  The presentation of the call (label objects, collection types, positional / keyword /
-    left-out arguments) is drawn from sel["sty"], so a replay repeats it"""
+    """one extraction call.  The presentation of the call (label objects, collection types, which arguments go
+    positionally / by keyword / are left out, flags as bools or as 1 / 0) is drawn from sel["sty"], so a replay repeats it"""
     f = sel["f"]
     pr = _random.Random(sel.get("sty", 0))
-    style = pr.randrange(3) if "sty" in sel else 0        # 0: every argument by keyword, 1: defaults left out, 2: positional
+    styled = "sty" in sel and not sel.get("malformed")
     if f == "induced":
         arg, order = present_nodes(case, sel, pr)
         sel["_iter"] = order                               # the order in which the code will meet the nodes
-        out = guard(h.subhypergraph, arg) if style != 1 else guard(h.subhypergraph, nodes=arg)
+        out = guard(h.subhypergraph, arg) if pr.random() < 0.6 else guard(h.subhypergraph, nodes=arg)
         scribble_in(arg)
         return out
     if f in ("byorders", "bysizes"):
@@ -1177,43 +1638,23 @@ def call_selection(case, h, sel):
             else:
                 args[name] = None
         keep = flag_arg(sel["keep"], pr)
-        if sel.get("malformed") or style == 0:
-            out = guard(h.subhypergraph_by_orders, orders=args["orders"], sizes=args["sizes"], keep_nodes=keep)
-        elif style == 1:
-            kw = {k: v for k, v in args.items() if v is not None}
-            if not sel["keep"] or pr.random() < 0.5:
-                kw["keep_nodes"] = keep
-            out = guard(h.subhypergraph_by_orders, **kw)
-        else:
-            out = guard(h.subhypergraph_by_orders, args["orders"], args["sizes"], keep)
+        out = spell(pr, h.subhypergraph_by_orders, ["orders", "sizes", "keep_nodes"], [args["orders"], args["sizes"], keep],
+                    [None, None, True], k=None if styled else 0, full=not styled)
         for a in args.values():
             scribble_in(a)
         return out
     if f == "edges":
         order, size = num_arg(sel.get("order"), pr), num_arg(sel.get("size"), pr)
         up_to, keep = flag_arg(sel["up_to"], pr), flag_arg(sel["keep"], pr)
-        if sel.get("malformed") or style == 0:
-            return guard(h.get_edges, order=order, size=size, up_to=up_to, subhypergraph=True, keep_isolated_nodes=keep)
-        if style == 1:
-            kw = {"subhypergraph": True}
-            if order is not None:
-                kw["order"] = order
-            if size is not None:
-                kw["size"] = size
-            if sel["up_to"] or pr.random() < 0.5:
-                kw["up_to"] = up_to
-            if sel["keep"] or pr.random() < 0.5:
-                kw["keep_isolated_nodes"] = keep
-            return guard(h.get_edges, **kw)
-        return guard(h.get_edges, order, size, up_to, True, keep)
+        sub = flag_arg(sel.get("sub", True), pr)
+        md = sel.get("md")                                 # None: the caller does not mention the flag
+        md = False if md is None else flag_arg(md, pr)
+        return spell(pr, h.get_edges, GET_EDGES_ARGS, [order, size, up_to, sub, keep, md], GET_EDGES_DEFAULTS,
+                     k=None if styled else 0, full=not styled or (sel.get("md") is False and pr.random() < 0.5))
     if f == "lcc":
         order, size = num_arg(sel.get("order"), pr), num_arg(sel.get("size"), pr)
-        if style == 0:
-            return guard(h.subhypergraph_largest_component, size=size, order=order)
-        if style == 1:
-            kw = {k: v for k, v in (("size", size), ("order", order)) if v is not None}
-            return guard(h.subhypergraph_largest_component, **kw)
-        return guard(h.subhypergraph_largest_component, size, order)
+        return spell(pr, h.subhypergraph_largest_component, ["size", "order"], [size, order], [None, None],
+                     k=None if styled else 0, full=not styled)
     raise ValueError(f)
 
 
@@ -1286,7 +1727,51 @@ def model_selection(case, sel, comp_ranks=None):
         os_ = sel.get("_orders", sel.get("orders"))
         ss = sel.get("_sizes", sel.get("sizes"))
         return f"{k} byorders 0 1 {'n' if os_ is None else ints(os_)} {'n' if ss is None else ints(ss)} {int(sel['keep'])}"
-    return f"{k} edgessub 0 1 {w_opt(sel.get('order'))} {w_opt(sel.get('size'))} {int(sel['up_to'])} {int(sel['keep'])}"
+    return (f"{k} getedges 0 1 {w_opt(sel.get('order'))} {w_opt(sel.get('size'))} {int(sel['up_to'])} "
+            f"{int(bool(sel.get('sub', True)))} {int(sel['keep'])} {int(bool(sel.get('md')))}")
+
+
+def parse_answer(kind, a):
+    """answer of the model's get_edges: 'rej' | 'sub' | ('keys', sorted keys) | ('keysmd', sorted (key, md tokens))"""
+    def md(t):
+        return () if t == "-" else tuple(sorted((tuple(int(x) for x in p.split(":")) for p in t.split(",")), key=repr))
+
+    def key(t):
+        ints = lambda u: () if u == "_" else tuple(int(x) for x in u.split(","))  # noqa: E731
+        return ints(t) if kind == "u" else tuple(ints(p) for p in t.split(">"))
+    try:
+        if a in ("rej", "sub"):
+            return a
+        head, _, body = a.partition(" ")
+        items = [] if body == "~" else body.split(";")
+        if head == "keys":
+            return ("keys", sorted(key(t) for t in items))
+        if head == "keysmd":
+            return ("keysmd", sorted((key(t.split("=")[0]), md(t.split("=")[1])) for t in items))
+    except Exception:  # noqa: BLE001
+        pass
+    return ("unparsable", a)
+
+
+def tok_answer(case, st, r, cls):
+    """the implementation's answer to get_edges in the same shape (None: nothing comparable, e.g. unhashable keys)"""
+    if st != "ok":
+        return "rej"
+    if type(r) is cls:
+        return "sub"
+    rk = {x: i for i, x in enumerate(case["labels"])}
+
+    def key(k):
+        f = lambda xs: tuple(rk.get(x, repr(x)) for x in xs)  # noqa: E731
+        return f(k) if case["kind"] == "u" else (f(k[0]), f(k[1]))
+    try:
+        if type(r) is list:
+            return ("keys", sorted(key(k) for k in r))
+        if type(r) is dict:
+            return ("keysmd", sorted((key(k), tok_md(m)) for k, m in r.items()))
+    except Exception:  # noqa: BLE001
+        pass
+    return ("other", type(r).__name__)
 
 
 # ------------------------------------------------------------------------------------------
@@ -1335,8 +1820,7 @@ def build(case, ops=None):
 def src_key(case, S):
     if S[0] == "exc":
         return repr(S)
-    return repr((case["kind"], S[0], sorted(S[1].items(), key=repr), sorted(S[2].items(), key=repr),
-                 sorted(S[3]["inc"].items(), key=repr), S[3]["empty"], sorted(S[3]["hmeta"].items(), key=repr)))
+    return repr((case["kind"], S[0], canon(S[1]), canon(S[2]), canon(S[3]["inc"]), canon(S[3]["empty"]), canon(S[3]["hmeta"])))
 
 
 def rank_keys(case, S):
@@ -1355,10 +1839,66 @@ def rank_keys(case, S):
 ORDER_ONLY = [0]
 
 
+def viol(ctx, case, what):
+    """a failing input (values of metadata can be long: the text is cut)"""
+    ctx.violation(case, what if len(what) <= 2500 else what[:2500] + " ...")
+
+
 def enough(ctx):
     """the search goes on while only the MODEL comparison differs (a change of the listing order differs on every
     harmless call): it ends after 5 failing inputs (or 3 hangs)"""
     return len(ctx.violations) >= 5 or TIMEOUTS[0] >= 3
+
+
+SEL_KEYS = ("f", "nodes", "sizes", "orders", "size", "order", "up_to", "keep", "sub", "md", "malformed", "as")
+
+
+def listing_wrong(case, S, sel, st, r):
+    """get_edges(..., subhypergraph=False): the returned TYPE first (a list; with metadata a dict {hyperedge: metadata}),
+    then exactly the hyperedges of the selection, each once, with the metadata the per-hyperedge getter shows"""
+    if st != "ok":
+        return f"raised {r}"
+    want = expected(case, S, {**sel, "keep": True})[2]
+    if sel.get("md"):
+        if type(r) is not dict:
+            return f"returned a {type(r).__name__} instead of the dict hyperedge -> metadata: {r!r}"[:600]
+        if set(r) != set(want):
+            return f"lists the hyperedges {sorted(r, key=repr)}, the selection holds {sorted(want, key=repr)}"
+        bad = [k for k in r if not same(r[k], want[k][1])]
+        return f"metadata of {bad[0]!r}: {r[bad[0]]!r}, get_edge_metadata gives {want[bad[0]][1]!r}" if bad else None
+    if type(r) is not list:
+        return f"returned a {type(r).__name__} instead of the list of hyperedges: {r!r}"[:600]
+    if len(set(r)) != len(r) or set(r) != set(want):
+        return f"lists the hyperedges {sorted(r, key=repr)}, the selection holds {sorted(want, key=repr)}"
+    return None
+
+
+def result_differs(kind, cls, r2, got):
+    if type(r2) is not cls:
+        return f"a {type(r2).__name__} instead of a {cls.__name__}"
+    g2 = snap(r2)
+    if g2[0] == "exc":
+        return f"a result that cannot be observed: {g2[1]}"
+    for i, what in ((0, "weightedness"), (1, "nodes / node metadata"), (2, "hyperedges / weights / metadata"), (3, "incidence / hypergraph metadata")):
+        if not (edges_same(g2[i], got[i]) if i == 2 else same(g2[i], got[i])):
+            return f"other {what}: {g2[i]!r} instead of {got[i]!r}"
+    return None
+
+
+def cold_call(ctx, case, full, sel, before, differs):
+    """the same call on a freshly built twin of the source that was never asked anything: same answer, twin untouched"""
+    h2, _ = build({k: v for k, v in case.items() if k not in ("warm_at", "warm_sels")})
+    st2, r2 = call_selection(case, h2, {k: v for k, v in sel.items() if not k.startswith("_")})
+    ctx.count("calls_repeated_on_a_never_queried_twin")
+    if st2 != "ok":
+        viol(ctx, full, f"{sel} on a freshly built, never queried source raised {r2} (it returns after the queries of a digest)")
+        return
+    why = differs(r2)
+    if why:
+        viol(ctx, full, f"{sel} on a freshly built, never queried source gives {why}")
+    dd = digest_diff(before, full_digest(case["kind"], h2)) if before is not None else None
+    if dd:
+        viol(ctx, full, f"{sel} as the first call on a freshly built source changed it (or it differs from the queried one): {dd}")
 
 
 def check_source(ctx, drv, case, only=None):
@@ -1372,26 +1912,28 @@ def check_source(ctx, drv, case, only=None):
     except RuntimeError as e:
         if "lean driver" in str(e):
             raise
-        ctx.violation({**case, "sel": None}, f"exception while exercising the implementation: RuntimeError: {e}")
+        viol(ctx, {**case, "sel": None}, f"exception while exercising the implementation: RuntimeError: {e}")
     except Exception as e:  # noqa: BLE001
         import traceback
         tbs = traceback.extract_tb(e.__traceback__)
         tb = ([t for t in tbs if t.filename.endswith("c05.py")] or tbs)[-1]
-        ctx.violation({**case, "sel": None},
+        viol(ctx, {**case, "sel": None},
                       f"exception while exercising the implementation: {type(e).__name__}: {str(e)[:120]} ({tb.name}:{tb.lineno})")
     if TIMEOUTS[0] >= 3:
-        ctx.violation({**case, "sel": None}, "calls of the implementation did not return within 10 s (3 times)")
+        viol(ctx, {**case, "sel": None}, "calls of the implementation did not return within 10 s (3 times)")
 
 
 def _check_source(ctx, drv, case, only=None):
     kind = case["kind"]
     L = case["labels"]
+    regime(case)
+    copyable = case.get("nv", NV_PLAIN) <= NV_COPYABLE       # no value in it that copy.deepcopy refuses
     h, outs = build(case)
     S = snap(h)
     if S[0] == "exc":
-        ctx.violation({**case, "sel": None}, "the source cannot be observed through the public API: " + str(S[1]))
+        viol(ctx, {**case, "sel": None}, "the source cannot be observed through the public API: " + str(S[1]))
         return
-    modelled = not case.get("extended")
+    modelled = not case.get("extended") and not case.get("xw")
     if modelled:
         lines = [f"{kind} new 0 {int(case['weighted'])}"] + [model_line(case, 0, op) for op in case["history"]] + [f"{kind} q 0"]
         want = ["ok"] + [("ok" if o == "ok" else "rej") for o in outs] + [tok_snap(case, S)]
@@ -1408,9 +1950,11 @@ def _check_source(ctx, drv, case, only=None):
         else:
             sels = all_selections(rng, case, present)
         for sel in sels:
-            if not sel.get("malformed") and rng.random() < 0.02:
+            if sel.get("malformed") or not sel.get("sub", True):
+                continue
+            if copyable and rng.random() < 0.02:
                 sel["copy_result"] = True
-            if not sel.get("malformed") and rng.random() < 0.03:
+            if rng.random() < 0.03:
                 sel["result_lives"] = gen_ops(rng, kind, S[0], len(L), set(), rng.randint(2, 5), p_aux=0.0, ov=case.get("ov", 0.0))
         pk = rank_keys(case, S)
         incs = [list(x) for x in case.get("incs", [])]
@@ -1421,32 +1965,91 @@ def _check_source(ctx, drv, case, only=None):
                 # an in-place edit of an incidence dict that exists: the only call through which a copy that shares
                 # the per-incidence dicts with its original shows
                 raw, node = rng.choice(incs)
-                out.insert(rng.randint(0, len(out)), ["attri", raw, node, rng.randrange(3), rng.randrange(len(VAL_POOL))])
+                out.insert(rng.randint(0, len(out)), ["attri", raw, node, rkey(rng), rv(rng)])
             return out
 
         def _ops(ext=False):
             return gen_ops(rng, kind, S[0], len(L), pk if rng.random() < 0.7 else set(), rng.randint(2 if ext else 1, 6),
                            extended=ext, p_aux=rng.choice([0.1, 0.35]), incs=list(incs), ov=case.get("ov", 0.0))
-        copies = [{"f": "copy", "ops_cp": ops(), "ops_orig": ops(),
+        copies = [{"f": "copy", "ops_cp": ops(), "ops_orig": ops(), "cold": rng.random() < 0.4,
                    "order": [rng.random() < 0.5 for _ in range(12)]}
                   for _ in range((1 if rng.random() < 0.3 else 0) if case.get("layout") or case.get("large") else 2)]
         if not case.get("layout"):
             copies.append({"f": "copy", "extended": True, "ops_cp": ops(True), "ops_orig": ops(True), "order": []})
+        # one dict object that is the metadata of several items: an attribute set through one of them after the copy
+        # shows on the others - in the copy like in a never-copied object (copy rounds, demand 3)
+        ids = [id(md) for md in S[1].values()] + [id(v[1]) for v in S[2].values()]
+        sharing = [r for r, x in enumerate(L) if x in S[1] and ids.count(id(S[1][x])) > 1]
+        for cp in copies:
+            for name in ("ops_cp", "ops_orig"):
+                if sharing and rng.random() < 0.8:
+                    cp[name].insert(rng.randint(0, len(cp[name])), ["attrn", rng.choice(sharing), rkey(rng), rv(rng)])
+        if not copyable:
+            copies = []
+        # a few of the calls are repeated on a freshly built, never queried twin of the source (the digests taken around
+        # every call ask every getter first: whatever a call needs to have been asked before is hidden by them)
+        for i in rng.sample(range(len(sels)), min(len(sels), 3 if case.get("layout") else 8)):
+            if not sels[i].get("malformed"):
+                sels[i]["cold"] = True
     else:
         sels = [s for s in only if s.get("f") != "copy"]
         copies = [s for s in only if s.get("f") == "copy"]
-    before = full_digest(kind, h)
+    before = full_digest(kind, h, fast=True)
+    before_c = full_digest(kind, h) if any(sel.get("cold") for sel in sels) else None    # comparable with another object's
     deep_before = full_digest(kind, h, deep=2)
     skey = src_key(case, S)
+    shapes = set()
     for sel in sels:
+        if enough(ctx):
+            break
         full = {**case, "sel": sel}
         st, r = call_selection(case, h, sel)
-        after = full_digest(kind, h)
-        dd = digest_diff(before, after)
+        # the source as every getter shows it after the first call of each SHAPE of call (function, flags, which of order /
+        # size), its stored tables after every call (and once more everything after all calls, see below)
+        shape = (sel["f"], sel.get("sub", True), bool(sel.get("md")), bool(sel.get("keep")), bool(sel.get("up_to")),
+                 sel.get("size") is not None, sel.get("order") is not None, sel.get("malformed", False))
+        if shape in shapes:
+            after = full_digest(kind, h, fast=True, light=True)
+            dd = digest_diff({k: before.get(k) for k in after}, after)
+            if dd:
+                after = full_digest(kind, h, fast=True)
+        else:
+            shapes.add(shape)
+            after = full_digest(kind, h, fast=True)
+            dd = digest_diff(before, after)
         if dd:
-            ctx.violation(full, f"{sel} changed the source: {dd}")
+            viol(ctx, full, f"{sel} changed the source: {dd}")
             before = after
         malformed = sel.get("malformed", False)
+        ckey = skey + repr(sorted((k, v) for k, v in sel.items() if k in SEL_KEYS))
+        if sel["f"] == "edges":
+            ctx.count(f"get_edges_sub{int(bool(sel.get('sub', True)))}_keep{int(bool(sel['keep']))}_md{sel.get('md')}")
+        if sel["f"] == "edges" and not sel.get("sub", True):
+            # the plain listing of the same selection: a list of hyperedges / {hyperedge: metadata}
+            if not malformed:
+                why = listing_wrong(case, S, sel, st, r)
+                if why:
+                    viol(ctx, full, f"{sel}: {why}")
+                elif sel.get("cold"):
+                    cold_call(ctx, case, full, sel, before_c, lambda r2: None if same(r2, r) else f"{r2!r} instead of {r!r}")
+            ctx.case(ckey, False, sample=None)
+            ctx.count("sel_edges_listing" + ("_malformed" if malformed else ""))
+            if modelled:
+                lines.append(model_selection(case, sel))
+                want.append(("ans", tok_answer(case, st, r, type(h))))
+                tags.append(("sel", full))
+            continue
+        if st == "ok" and type(r) is not type(h):
+            # the returned TYPE first: an extraction returns a hypergraph of the source's class
+            if not malformed:
+                viol(ctx, full, f"{sel} returned a {type(r).__name__} instead of the extracted {type(h).__name__}: {r!r}"[:600])
+            ctx.case(ckey, False, sample=None)
+            ctx.count("results_of_another_type")
+            if modelled and sel["f"] == "edges":
+                lines.append(model_selection(case, sel))
+                want.append(("ans", tok_answer(case, st, r, type(h))))
+                tags.append(("sel", full))
+            continue
         comp = None
         if sel["f"] == "lcc":
             stc, comp = guard(h.largest_component, size=sel.get("size"), order=sel.get("order"))
@@ -1457,65 +2060,69 @@ def _check_source(ctx, drv, case, only=None):
         if st == "ok":
             got = snap(r)
             if got[0] == "exc":
-                ctx.violation(full, f"{sel}: the result cannot be observed: {got[1]}")
+                viol(ctx, full, f"{sel}: the result cannot be observed: {got[1]}")
                 got = None
         if st == "ok" and got is not None and sel.get("copy_result"):
             # the extracted object is an object like any other: its copy is equal to it
-            d_r = full_digest(kind, r, deep=2)
+            deep_r = 2 if ctx.rng.random() < 0.25 else 1
+            d_r = full_digest(kind, r, deep=deep_r)
             stc2, rc = guard(r.copy)
             if stc2 != "ok":
-                ctx.violation(full, f"copy() of the result of {sel} raised {rc}")
+                viol(ctx, full, f"copy() of the result of {sel} raised {rc}")
             else:
-                dd = digest_diff(d_r, full_digest(kind, rc, deep=2))
+                dd = digest_diff(d_r, full_digest(kind, rc, deep=deep_r)) if type(rc) is type(r) else f"it is a {type(rc).__name__}"
+                dd = dd or listings_unequal(rc, r)
                 if dd:
-                    ctx.violation(full, f"copy() of the result of {sel} is not equal to it: {dd}")
+                    viol(ctx, full, f"copy() of the result of {sel} is not equal to it: {dd}")
             ctx.count("copies_of_results")
         if st == "ok" and got is not None and sel.get("result_lives"):
             # the extracted object is a full object: it takes a further history like an object built by hand with the
             # same content (nodes and hyperedges inserted in the result's listing order)
             why = lives_like_twin(case, r, got, sel["result_lives"])
             if why:
-                ctx.violation(full, f"the result of {sel} mutated by {sel['result_lives']} differs from a hand-built object "
+                viol(ctx, full, f"the result of {sel} mutated by {sel['result_lives']} differs from a hand-built object "
                                     f"with the result's content under the same calls: {why}")
-            dd = digest_diff(before, full_digest(kind, h))
+            dd = digest_diff(before, full_digest(kind, h, fast=True))
             if dd:
-                ctx.violation(full, f"mutating the result of {sel} changed the source: {dd}")
+                viol(ctx, full, f"mutating the result of {sel} changed the source: {dd}")
             ctx.count("results_mutated")
             st2, r = call_selection(case, h, sel)            # a fresh result for the oracles below
             got = snap(r) if st2 == "ok" else None
             if got is None or got[0] == "exc":
-                ctx.violation(full, f"{sel}: the second call raised / cannot be observed")
+                viol(ctx, full, f"{sel}: the second call raised / cannot be observed")
                 got, st = None, "exc"
         if not malformed:
             if st != "ok":
                 if not (sel["f"] == "lcc" and not S[1]):       # largest component of the empty hypergraph: max() of nothing
-                    ctx.violation(full, f"{sel} raised {r}")
+                    viol(ctx, full, f"{sel} raised {r}")
             elif got is not None:
                 if sel["f"] == "lcc":
                     if comp is None:
-                        ctx.violation(full, f"largest_component({sel}) raised")
+                        viol(ctx, full, f"largest_component({sel}) raised")
                     elif not any(set(comp) == c for c in largest_components(kind, S, sel)) or len(set(comp)) != len(list(comp)):
-                        ctx.violation(full, f"largest_component{sel} = {sorted(comp, key=repr)} is not a connected component of maximum size")
+                        viol(ctx, full, f"largest_component{sel} = {sorted(comp, key=repr)} is not a connected component of maximum size")
                 exp = expected(case, S, sel, comp) if not (sel["f"] == "lcc" and comp is None) else None
                 if exp is not None:
                     if got[0] != exp[0]:
-                        ctx.violation(full, f"{sel}: is_weighted() = {got[0]}, source {exp[0]}")
-                    if got[2] != exp[2]:
-                        ctx.violation(full, f"{sel}: hyperedges/weights/metadata {got[2]} != selected part of the source {exp[2]}")
+                        viol(ctx, full, f"{sel}: is_weighted() = {got[0]}, source {exp[0]}")
+                    if not edges_same(got[2], exp[2]):
+                        viol(ctx, full, f"{sel}: hyperedges/weights/metadata {got[2]} != selected part of the source {exp[2]}")
                     if set(got[1]) != set(exp[1]):
-                        ctx.violation(full, f"{sel}: node set {sorted(got[1], key=repr)} != documented {sorted(exp[1], key=repr)}")
-                    elif got[1] != exp[1]:
-                        ctx.violation(full, f"{sel}: node metadata {got[1]} != source's {exp[1]}")
+                        viol(ctx, full, f"{sel}: node set {sorted(got[1], key=repr)} != documented {sorted(exp[1], key=repr)}")
+                    elif not same(got[1], exp[1]):
+                        viol(ctx, full, f"{sel}: node metadata {got[1]} != source's {exp[1]}")
+                    if sel.get("cold"):
+                        cold_call(ctx, case, full, sel, before_c,
+                                  lambda r2: result_differs(kind, type(h), r2, got))
                     why = incidence_ok(kind, r, got)
                     if why:
-                        ctx.violation(full, f"{sel}: result is not a consistent hypergraph: {why}")
+                        viol(ctx, full, f"{sel}: result is not a consistent hypergraph: {why}")
                     nontrivial = 0 < len(exp[2]) < len(S[2])
                     ctx.count("shared_node_metadata_objects",
                               sum(1 for n in got[1] if n in S[1] and got[1][n] is S[1][n]))
                     ctx.count("shared_edge_metadata_objects",
                               sum(1 for k in got[2] if k in S[2] and got[2][k][1] is S[2][k][1]))
-        ctx.case(skey + repr(sorted((k, v) for k, v in sel.items() if k != "sty" and not k.startswith("_") and k != "result_lives")),
-                 nontrivial, sample=full if nontrivial else None)
+        ctx.case(ckey, nontrivial, sample=full if nontrivial else None)
         ctx.count("sel_" + sel["f"] + ("_malformed" if malformed else ""))
         if sel.get("_cont"):
             ctx.count("node_selection_as_" + sel["_cont"])
@@ -1529,7 +2136,7 @@ def _check_source(ctx, drv, case, only=None):
             continue
         rk = {x: i for i, x in enumerate(L)}
         lines.append(model_selection(case, sel, [rk[x] for x in comp] if comp is not None else None))
-        want.append("ok" if st == "ok" else "rej")
+        want.append(("ans", tok_answer(case, st, r, type(h))) if sel["f"] == "edges" else "ok" if st == "ok" else "rej")
         tags.append(("sel", full))
         if st == "ok" and got is not None:
             lines.append(f"{kind} q 1")
@@ -1543,14 +2150,14 @@ def _check_source(ctx, drv, case, only=None):
 
     dd = digest_diff(deep_before, full_digest(kind, h, deep=2))
     if dd:
-        ctx.violation({**case, "sel": None}, f"the extractions changed the source: {dd}")
+        viol(ctx, {**case, "sel": None}, f"the extractions changed the source: {dd}")
     for cp in copies:
         check_copy(ctx, case, h, S, cp, lines, want, tags, skey)
     if only is None and not enough(ctx) and (not case.get("layout") or ctx.rng.random() < 0.25):
         # ask, change the object in place, ask again: the same selections on the same object after a few further
         # calls (half of the time calls that leave the cheap signatures - numbers of nodes / hyperedges - as they are)
         rng = ctx.rng
-        asked = [{k: v for k, v in sel.items() if not k.startswith("_") and k not in ("copy_result", "result_lives")}
+        asked = [{k: v for k, v in sel.items() if not k.startswith("_") and k not in ("copy_result", "result_lives", "cold")}
                  for sel in sels if not sel.get("malformed")]
         again = rng.sample(asked, min(len(asked), 14))
         if rng.random() < 0.5:
@@ -1573,6 +2180,26 @@ def _check_source(ctx, drv, case, only=None):
     if case.get("wscale"):
         ctx.count("sources_with_integer_weights_beyond_2^60")
     ctx.count("labels_" + label_class(L))
+    nv = case.get("nv", NV_PLAIN)
+    ctx.count("sources_values_" + ("plain" if nv <= NV_PLAIN else "of_every_copyable_kind" if nv <= NV_COPYABLE else "incl_uncopyable"))
+    if case.get("xw"):
+        ctx.count("sources_with_weights_of_every_numeric_kind")
+        for w, name in ((0, "zero"), (float("nan"), "nan"), (float("inf"), "inf")):
+            if any(weq(v[0], w) for v in S[2].values()):
+                ctx.count("sources_with_a_weight_" + name)
+    if case.get("flavour"):
+        ctx.count("sources_flavour_" + case["flavour"])
+    kinds = set()
+    for md in list(S[1].values()) + [v[1] for v in S[2].values()] + list(S[3]["inc"].values()) + \
+            [{k: v for k, v in S[3]["hmeta"].items() if k not in ("weighted", "type")}] + \
+            [m for _, m in S[3]["empty"] if isinstance(m, dict)]:
+        kinds |= {tok_val(v) for v in md.values()} if isinstance(md, dict) else set()
+    for i in kinds:
+        if isinstance(i, int) and i >= NV_PLAIN:
+            ctx.count("sources_holding_a_value:" + VALS[i][0])
+    ids = [id(md) for md in list(S[1].values()) + [v[1] for v in S[2].values()]]
+    if len(set(ids)) < len(ids):
+        ctx.count("sources_with_one_metadata_dict_shared_by_several_items")
     if kind == "d":
         ov = sum(1 for k in S[2] if set(k[0]) & set(k[1]))
         ctx.count("directed_sources_with_overlapping_sides" if ov else "directed_sources_disjoint_sides")
@@ -1590,9 +2217,12 @@ def _finish_model(ctx, drv, case, lines, want, tags, modelled):
         return
     ans = drv.batch(lines)
     for ln, a, w, (tag, full) in zip(lines, ans, want, tags):
-        got = a if isinstance(w, str) else parse_model(kind, a)
+        if isinstance(w, tuple) and w and w[0] == "ans":
+            got = ("ans", parse_answer(kind, a))
+        else:
+            got = a if isinstance(w, str) else parse_model(kind, a)
         same = got == w
-        if same and not isinstance(w, str) and w[0] != "exc" and ORDER_ONLY[0] < 2:
+        if same and not isinstance(w, str) and w[0] not in ("exc", "ans") and ORDER_ONLY[0] < 2:
             # the model mirrors the construction order of the code: listings must also agree as sequences
             # (incidence metadata and empty edges are compared as sequences already).  The property does not speak
             # about listing order: such a difference is reported twice per run, afterwards contents only are compared
@@ -1610,15 +2240,22 @@ def _finish_model(ctx, drv, case, lines, want, tags, modelled):
             break
 
 
+def dup(md):
+    try:
+        return _copy.deepcopy(md)
+    except Exception:  # noqa: BLE001      (a value deepcopy refuses: a new dict around the same values)
+        return dict(md) if isinstance(md, dict) else md
+
+
 def lives_like_twin(case, r, got, ops):
     """apply `ops` to the result r and to a twin built by hand from the content `got` of r; compare every public query
     (level 0: no internal ids).  Structural calls only - the metadata dicts of a result are those of the source by design"""
     kind = case["kind"]
     twin = new_object({**case, "weighted": got[0]})
     for n, md in got[1].items():
-        twin.add_node(n, _copy.deepcopy(md))
+        twin.add_node(n, dup(md))
     for k, (w, md) in got[2].items():
-        twin.add_edge(k, w if got[0] else None, _copy.deepcopy(md))
+        twin.add_edge(k, w if got[0] else None, dup(md))
     def dig(o):      # without the queries that show internal ids
         return {k: v for k, v in full_digest(kind, o).items() if k not in ("adj", "adj_s", "adj_t", "edge_list", "empty_private")}
     dd = digest_diff(dig(twin), dig(r))
@@ -1631,26 +2268,63 @@ def lives_like_twin(case, r, got, ops):
     return digest_diff(dig(twin), dig(r))
 
 
+LISTINGS = [("get_nodes(metadata=True)", lambda o: o.get_nodes(metadata=True)),
+            ("get_edges(metadata=True)", lambda o: o.get_edges(metadata=True)),
+            ("get_weights(asdict=True)", lambda o: o.get_weights(asdict=True)),
+            ("get_weights()", lambda o: o.get_weights()),
+            ("get_hypergraph_metadata()", lambda o: o.get_hypergraph_metadata()),
+            ("get_all_incidences_metadata()", lambda o: o.get_all_incidences_metadata()),
+            ("get_all_nodes_metadata()", lambda o: o.get_all_nodes_metadata()),
+            ("get_all_edges_metadata()", lambda o: o.get_all_edges_metadata()),
+            ("the metadata of the empty edges", lambda o: getattr(o, "_empty_edges", None))]
+
+
+def listings_unequal(a, b):
+    """'copy() returns an EQUAL hypergraph' in the user's sense: each public listing of the copy compares equal (Python ==)
+    to the original's.  This is what copy.deepcopy gives for every value it accepts - also for a nan weight or a nan inside
+    metadata, which deepcopy hands over as the very object (container == looks at identity first) - and no more is demanded:
+    values whose == is not defined elementwise (numpy arrays) or is identity (instances without __eq__) are compared by
+    structure (see canon, strict)"""
+    def f():
+        for name, fn in LISTINGS:
+            if not same(fn(a), fn(b), strict=True):
+                return name
+        return None
+    st, v = guard(f)
+    return v if st == "ok" else "listings raised " + str(v)
+
+
 def check_copy(ctx, case, h, S, cp, lines, want, tags, skey):
     """h is left unchanged: the 'original' that is mutated is itself a fresh rebuild of the same history"""
     kind = case["kind"]
     full = {**case, "sel": cp}
     orig, _ = build(case)
-    d0 = full_digest(kind, orig, deep=2)
-    st, c = guard(orig.copy)
+    if cp.get("cold"):
+        # copy() is the FIRST call on a freshly built object (no getter has run on it); the picture of the original before
+        # the copy is taken from a second build of the same history
+        st, c = guard(orig.copy)
+        d0 = full_digest(kind, build(case)[0], deep=2)
+        ctx.count("copies_of_a_never_queried_object")
+    else:
+        d0 = full_digest(kind, orig, deep=2)
+        st, c = guard(orig.copy)
     if st != "ok":
-        ctx.violation(full, f"copy() raised {c}")
+        viol(ctx, full, f"copy() raised {c}")
         return
     if c is orig or type(c) is not type(orig):
-        ctx.violation(full, "copy() returned the object itself / another type")
+        viol(ctx, full, "copy() returned the object itself / another type")
         return
     dd = digest_diff(d0, full_digest(kind, c, deep=2))
     if dd:
-        ctx.violation(full, f"copy() is not equal to the original: {dd}")
+        viol(ctx, full, f"copy() is not equal to the original: {dd}")
+    else:
+        name = listings_unequal(c, orig)
+        if name:
+            viol(ctx, full, f"copy() is not equal to the original: {name} of the copy does not compare equal (==) to the original's")
     d0 = {k: v for k, v in d0.items() if k not in DEEP2}
     dd = digest_diff(d0, full_digest(kind, orig, deep=1))
     if dd:
-        ctx.violation(full, f"copy() changed the original: {dd}")
+        viol(ctx, full, f"copy() changed the original: {dd}")
     # (1) mutate the copy only -> original as before
     changed_cp = changed_orig = False
     outs_cp = []
@@ -1660,7 +2334,7 @@ def check_copy(ctx, case, h, S, cp, lines, want, tags, skey):
     changed_cp = digest_diff(d0, d_cp) is not None
     dd = digest_diff(d0, full_digest(kind, orig, deep=1))
     if dd:
-        ctx.violation(full, f"mutating the copy ({cp['ops_cp']}) changed the original: {dd}")
+        viol(ctx, full, f"mutating the copy ({cp['ops_cp']}) changed the original: {dd}")
     # (2) mutate the original only -> copy as before
     outs_orig = []
     for op in cp["ops_orig"]:
@@ -1669,26 +2343,27 @@ def check_copy(ctx, case, h, S, cp, lines, want, tags, skey):
     changed_orig = digest_diff(d0, d_orig) is not None
     dd = digest_diff(d_cp, full_digest(kind, c, deep=1))
     if dd:
-        ctx.violation(full, f"mutating the original ({cp['ops_orig']}) changed the copy: {dd}")
+        viol(ctx, full, f"mutating the original ({cp['ops_orig']}) changed the copy: {dd}")
     # (3) each equals a never-copied object with the same history, and accepted / rejected the same calls
     for name, obj_d, ops, outs in (("original", d_orig, cp["ops_orig"], outs_orig), ("copy", d_cp, cp["ops_cp"], outs_cp)):
         ref, routs = build(case, case["history"] + ops)
         dd = digest_diff(full_digest(kind, ref, deep=1), obj_d)
         if dd:
-            ctx.violation(full, f"the {name} after its mutations differs from a never-copied object with the same history: {dd}")
+            viol(ctx, full, f"the {name} after its mutations differs from a never-copied object with the same history: {dd}")
         routs = routs[len(case["history"]):]
         if routs != outs:
             i = [a == b for a, b in zip(routs, outs)].index(False)
-            ctx.violation(full, f"the {name} {'accepted' if outs[i] == 'ok' else 'rejected'} {ops[i]} which a never-copied object "
+            viol(ctx, full, f"the {name} {'accepted' if outs[i] == 'ok' else 'rejected'} {ops[i]} which a never-copied object "
                                 f"with the same history {'accepted' if routs[i] == 'ok' else 'rejected'}")
     # (4) a copy of the (mutated) copy equals it
     st2, c2 = guard(c.copy)
     if st2 != "ok":
-        ctx.violation(full, f"copy() of the mutated copy raised {c2}")
+        viol(ctx, full, f"copy() of the mutated copy raised {c2}")
     else:
-        dd = digest_diff(d_cp, full_digest(kind, c2, deep=1))
+        dd = digest_diff(d_cp, full_digest(kind, c2, deep=1)) if type(c2) is type(c) else f"it is a {type(c2).__name__}"
+        dd = dd or listings_unequal(c2, c)
         if dd:
-            ctx.violation(full, f"the copy of the mutated copy is not equal to it: {dd}")
+            viol(ctx, full, f"the copy of the mutated copy is not equal to it: {dd}")
     ctx.case(skey + repr(sorted(cp.items(), key=repr)), changed_cp and changed_orig, sample=None)
     ctx.count("sel_copy" + ("_extended" if cp.get("extended") else ""))
     if cp.get("extended"):
@@ -1720,6 +2395,10 @@ def check_copy(ctx, case, h, S, cp, lines, want, tags, skey):
 
 
 # ------------------------------------------------------------------------------------------
+
+def V(name):
+    return [n for n, _ in VALS].index(name)
+
 
 FIXED_SOURCES = [
     # the DESIGN's D19 example: weights 5.0 and 7.0, ids 0 and 1
@@ -1764,6 +2443,30 @@ FIXED_SOURCES = [
     # the node-less hyperedge () has size 0 (order -1)
     {"kind": "u", "weighted": True, "labels": [0, 1, 2], "ov": 0.5,
      "history": [["addedge", [], 6, [[0, 2]]], ["addedge", [0, 1], 10, None], ["addnode", 2, None], ["addedge", [1], 4, None]]},
+    # metadata VALUES are objects of any kind: callables, instances of local classes, nan, sets, nested containers with
+    # non-string keys - on nodes, hyperedges, incidences and the hypergraph itself, for both classes
+    {"kind": "d", "weighted": True, "labels": [1, 2, 3, 4, 5, 6, 7], "nv": NV_COPYABLE, "incs": [[[[0, 1], [2]], 2]],
+     "history": [["addnode", 6, [[0, V("lambda")]]], ["addnode", 0, [[1, V("str")]]],
+                 ["addedge", [[0, 1], [2]], 8, [[0, V("local function with a closure")]]], ["addedge", [[2], [3, 4]], 6, None],
+                 ["addedge", [[5], [5]], 4, [[3, V("nan")], [4, V("instance of a local class")]]],
+                 ["setim", [[0, 1], [2]], 2, [[2, V("nested")]]], ["attrh", 5, V("set")], ["setnm", 3, [[0, V("list of nans")]]]]},
+    {"kind": "u", "weighted": False, "labels": ["a", "b", "c", "d", "e"], "nv": NV_COPYABLE, "incs": [[[0, 1], 1]],
+     "history": [["addnode", 4, [[0, V("enum member of a local Enum")]]], ["addedge", [0, 1], None, [[1, V("lambda")]]],
+                 ["addedge", [1, 2, 3], None, [[0, V("numpy array")], [3, V("Decimal NaN")]]], ["addedge", [3], None, None],
+                 ["setim", [0, 1], 1, [[5, V("instance with __slots__")]]], ["addempty", 0, [[0, V("local class")]]],
+                 ["sethm", [[4, V("cyclic list")], [1, V("bytes")]]], ["setnm", 2, [[2, V("numpy nan")], [0, V("nan")]]]]},
+    # weights of every numeric kind (nan, inf, 0, an int beyond 2**64, a Fraction), one dict object shared by two nodes and a hyperedge
+    {"kind": "u", "weighted": True, "labels": [10, 20, 30, 40, 50], "nv": NV_COPYABLE, "extended": True, "xw": True,
+     "history": [["addedge", [0, 1], 1, [[0, V("nan")]]], ["addedge", [1, 2, 3], 2, None], ["addedge", [3], 7, [[1, V("int")]]],
+                 ["addedge", [2, 4], 6, None], ["addedge", [0, 4, 1], 5, None], ["addedge", [1, 0], 8, None],
+                 ["sharemd", [0, 3], [1, 2, 3], [[0, V("list")]]], ["attrn", 0, 1, V("inf")]]},
+    {"kind": "d", "weighted": True, "labels": ["p", "q", "r", "s"], "nv": NV_COPYABLE, "extended": True, "xw": True,
+     "history": [["addedge", [[0], [1]], 1, None], ["addedge", [[1, 2], [3]], 3, [[0, V("-inf")]]], ["addedge", [[3], [0]], 7, None],
+                 ["addedge", [[0], [1]], 12, None], ["sharemd", [1, 2], None, [[2, V("dict")]]], ["attrn", 2, 0, V("True")]]},
+    # values copy.deepcopy refuses (a generator object, a lock): they travel with every extraction; no copy() is asked
+    {"kind": "u", "weighted": True, "labels": [5, 6, 7, 8], "nv": NV_ALL,
+     "history": [["addnode", 3, [[0, V("generator object")]]], ["addedge", [0, 1], 6, [[1, V("lock")]]],
+                 ["addedge", [1, 2], 10, [[0, V("instance holding a lock")]]], ["addedge", [2], 4, None], ["attrh", 0, V("memoryview")]]},
 ]
 
 
@@ -1799,16 +2502,23 @@ def gen_labels_large(rng, n):
 
 def run(ctx):
     drv = ctx.driver() if ctx.model_available else None
-    n = ctx.scale(26, 520)
+    n = ctx.scale(24, 520)
     n_ext = ctx.scale(6, 120)
     n_large = ctx.scale(2, 30)
     grid = layout_grid(ctx.rng, ctx.scale(1, 4), ctx.tier != "quick")
 
     def stop():
         return enough(ctx) or (ctx.time_left() is not None and ctx.time_left() < 15)
-    for case in FIXED_SOURCES:
+    import os
+    for case in ([] if os.environ.get("C05_NO_FIXED") else FIXED_SOURCES):     # (switch: detection by the random stream alone)
         if not stop():
             check_source(ctx, drv, case)
+    flavours = [("xw", "u", True), ("xw", "d", True), ("xw", "u", True), ("nocopy", "u", True), ("nocopy", "d", True),
+                ("nocopy", "u", False), ("nocopy", "u", True), ("share", "u", True), ("share", "d", False), ("share", "u", False)]
+    for _ in range(ctx.scale(1, 12)):
+        for fl in flavours:
+            if not stop():
+                check_source(ctx, drv, gen_source_flavoured(ctx.rng, *fl))
     # interleave the three classes so that a run cut short by the budget has seen all of them
     gi = 0
     n_large_done = 0
